@@ -237,7 +237,7 @@ func runC01(r *mon.Run) {
 	for l := 32; l <= 64; l++ {
 		r.Require(fmt.Sprintf("p:wide:len=%d", l))
 	}
-	r.Require("p:wide:value=0 mod p", "p:wide:max", "p:wide:zero-extended-equal")
+	r.Require("p:wide:value=0 mod p", "p:wide:max", "p:wide:zero-extended-equal", "p:wide:reduction-resonant")
 	two192 := new(big.Int).Lsh(big.NewInt(1), 192)
 	r.Each("p/wide", r.N(6600, 200000), func(w *mon.W, i int) {
 		rng := w.Rng
@@ -294,6 +294,9 @@ func runC01(r *mon.Run) {
 				src[j] = 0
 			}
 			src[rng.Intn(l)] = 1 << uint(rng.Intn(8))
+		case 5: // words resonating with the reduction constant 2^256 mod p
+			src = rng.ResonantWide(l, 0x1000003d1)
+			w.Class("p:wide:reduction-resonant")
 		}
 		keep := append([]byte{}, src...)
 		v := oracle.FromBytes(src)
